@@ -92,9 +92,49 @@ def render(block, style, r, ind=0):
     return out
 
 
+def wire(block):
+    out = []
+    for st in block:
+        if st[0] == "cmd":
+            out += ["c", hx("stage %d 0" % st[1])]
+        elif st[0] == "break":
+            out.append("b")
+        elif st[0] == "continue":
+            out.append("k")
+        elif st[0] == "if":
+            out.append("i")
+            for c, b in st[1]:
+                out += ["t", hx("cond %d" % c), "{"] + wire(b) + ["}"]
+            if st[2] is not None:
+                out += ["e", "{"] + wire(st[2]) + ["}"]
+        elif st[0] == "for":
+            out += ["f", hx(st[1]), hx(" ".join(st[2]) if st[2] else "$EMPTY"), "{"] + wire(st[3]) + ["}"]
+        elif st[0] == "while":
+            out += ["w", hx("cond %d" % st[1]), "{"] + wire(st[2]) + ["}"]
+    return out
+
+
 def generate(tier, rng):
     cases = []
     r = rng.fork("c14")
+    # execution: scripted statuses for every condition (a sequence ending in a non-zero status so that loops end)
+    ne = 3000 if tier == "quick" else 50000
+    for i in range(ne):
+        g = Gen(r)
+        b = g.block(1 + r.below(4), False, [30])
+        style = r.choice(["nl", "semi"])
+        text = "\n".join(render(b, style, r)) + "\n"
+        seq = {}
+        for c in range(1, g.cond + 1):
+            k = r.below(4)
+            seq["cond %d" % c] = [0] * k + [r.choice([1, 1, 2, 127])]
+        for n_ in range(1, g.n + 1):
+            if r.chance(1, 4):
+                seq["stage %d 0" % n_] = [r.choice([0, 1, 3])]
+        seqf = ",".join(hx(k) + ":" + ".".join(str(x) for x in v) for k, v in seq.items()) or "[]"
+        env = gens.env_field(exported={"HOME": "/h"})
+        cases.append(Case("srun", [env, hx(text), ",".join(hx(x) for x in ["cicada", "s.sh", "A1"]), seqf, ",".join(hx(x) for x in ["v0", "v1", "v2"]),
+                                   " ".join(wire(b))], {"gen": "run", "t": text}))
     n = 6000 if tier == "quick" else 100000
     for i in range(n):
         g = Gen(r)
@@ -125,3 +165,66 @@ def generate(tier, rng):
 
 def nontrivial(c, M, S, g, cls):
     return c.meta["t"] if ("EXP_IF" in M or "EXP_FOR" in M or "EXP_WHILE" in M) else None
+
+
+def project(c, s):
+    """process-level traces carry no variable values: compare (line, status) only"""
+    if c.meta.get("gen") != "p" or s in ("[]", "SYNTAX-ERROR", "HANG") or ":" not in s:
+        return s
+    return ",".join(":".join(x.split(":")[:2]) for x in s.split(","))
+
+
+def process(tier, rng, cicada):
+    r = rng.fork("c14-p")
+    n = 150 if tier == "quick" else 3000
+    cases = []
+    for i in range(n):
+        g = Gen(r)
+        b = g.block(1 + r.below(4), False, [25])
+        text = "\n".join(render(b, r.choice(["nl", "semi"]), r)) + "\n"
+        seq = {}
+        for c_ in range(1, g.cond + 1):
+            seq["cond %d" % c_] = [0] * r.below(4) + [r.choice([1, 2, 127])]
+        stat = {}
+        for n_ in range(1, g.n + 1):
+            stat[n_] = r.choice([0, 0, 0, 1, 3])
+            text = text.replace("stage %d 0\n" % n_, "stage %d %d\n" % (n_, stat[n_]))
+            seq["stage %d %d" % (n_, stat[n_])] = [stat[n_]]
+        seqf = ",".join(hx(k) + ":" + ".".join(str(x) for x in v) for k, v in seq.items()) or "[]"
+        w = " ".join(wire(b))
+        for n_ in range(1, g.n + 1):
+            w = w.replace(hx("stage %d 0" % n_), hx("stage %d %d" % (n_, stat[n_])))
+        c = Case("srun", [gens.env_field(exported={"HOME": "/h"}), hx(text), ",".join(hx(x) for x in ["cicada", "s.sh"]), seqf, "[]", w],
+                 {"gen": "p", "t": text, "seq": seq})
+        c.id = "p%d" % i
+        cases.append(c)
+    sb = proc.Sandbox("c14")
+
+    def one(c):
+        d = os.path.join(sb.dir, c.id)
+        os.makedirs(d)
+        for k, v in c.meta["seq"].items():
+            if k.startswith("cond "):
+                open(os.path.join(d, k.split()[1] + ".seq"), "w").write(" ".join(str(x) for x in v))
+        open(os.path.join(d, "s.sh"), "w").write(c.meta["t"])
+        log = os.path.join(d, "trace.log")
+        try:
+            p = subprocess.run([cicada, os.path.join(d, "s.sh")], cwd=d, env=sb.env({"STAGE_LOG": log, "COND_DIR": d}), stdin=subprocess.DEVNULL,
+                               stdout=subprocess.PIPE, stderr=subprocess.PIPE, timeout=30)
+        except subprocess.TimeoutExpired:
+            return c.id, "HANG"
+        if b"syntax error" in p.stderr:
+            return c.id, "SYNTAX-ERROR"
+        out = []
+        if os.path.exists(log):
+            for ln in open(log).read().split("\n"):
+                if not ln:
+                    continue
+                name, st = ln.rsplit(":", 1)
+                text = name if name.startswith("cond ") else "stage %s %s" % (name, st)
+                out.append("%s:%s" % (hx(text), st))
+        return c.id, ",".join(out) or "[]"
+
+    impl = dict(proc.pmap(one, cases))
+    sb.cleanup()
+    return [("script", cases, impl)]
